@@ -22,12 +22,13 @@ import threading
 import numpy as np
 import scipy.stats as ss
 
-from harness import tlc
+from harness import core, tlc
 from harness.util import Hang, time_limit
 
 INF = 2000000000          # np.inf in the traces
 BAD = 1999999999          # a non-finite / out-of-range value produced by elfi (fails every clause that reads it)
-WORKERS = 4
+WORKERS = 2          # TLC workers per design run
+LANES = 4            # design runs in parallel
 
 
 class OutOfDomain(Exception):
@@ -204,7 +205,7 @@ def weight_fields(prior, names, pop, prev):
 def pop_event(**kw):
     e = dict(ev="pop", raised="", r=0, sizes=[], nb=0, nsim=0, ds=[], thr_rep=0, ws=[], wn=[], pp=[], lw=[], lp=[], lq=[], cov=[], wvar=[],
              ncols=[], nest=[], rows=[], rows_elfi=[], w_elfi=[], w_orc=[], cand=[], cnew=[], pop=[],
-             rowd=[], thr_force=0, a=0, qest=-1, mr=-1, npops=0, ndf=0)
+             rowd=[], thr_force=0, a=0, qest=-1, mr=-1, npops=0, ndf=0, cont=0)
     e.update(kw)
     return e
 
@@ -249,11 +250,16 @@ def record_ad(sc):
             return pop
 
     events = []
-    tr = trace(kind="AD", n=sc["n"], qa=sc["q"][0], qA=sc["q"][1], bs=sc["bs"], rounds=sc["rounds"], ncol=int(obs.shape[1]), events=events)
+    tr = trace(kind="AD", n=sc["n"], qa=sc["q"][0], qA=sc["q"][1], bs=sc["bs"], rounds=sc["rounds"] + sc.get("rounds2", 0),
+               ncol=int(obs.shape[1]), events=events)
+    cont = 0
     try:
         with time_limit(120):
             smc = RecAD(m["d"], batch_size=sc["bs"], seed=sc["seed"], max_parallel_batches=sc["mp"])
             res = smc.sample(sc["n"], rounds=sc["rounds"], quantile=sc["q"][0] / sc["q"][1], bar=False)
+            if sc.get("rounds2"):          # continued sampling on the same sampler
+                cont = 1
+                res = smc.sample(sc["n"], rounds=sc["rounds2"], quantile=sc["q"][0] / sc["q"][1], bar=False)
             ndf = len(smc.model["d"].state["distance_functions"])
         tr["N"] = int(smc.objective["n_samples"])
         worc = []          # oracle scale of every finished round: 1 / population std of ALL its rows
@@ -295,9 +301,9 @@ def record_ad(sc):
     except OutOfDomain:
         return None
     except Hang:
-        events.append(end_event(raised="Hang", nsim=-1))
+        events.append(end_event(raised="Hang", nsim=-1, cont=cont))
     except Exception as ex:
-        events.append(end_event(raised="%s: %s" % (type(ex).__name__, str(ex)[:100]), nsim=-1))
+        events.append(end_event(raised="%s: %s" % (type(ex).__name__, str(ex)[:100]), nsim=-1, cont=cont))
     return tr
 
 
@@ -321,14 +327,18 @@ def record_at(sc):
             super().update(batch, batch_index)
 
     events = []
-    tr = trace(kind="AT", n=sc["n"], bs=sc["bs"], max_iter=sc["max_iter"], qthr=int(round(sc["qthr"] * 1e6)), q0a=sc["q0"][0], q0A=sc["q0"][1],
-               events=events)
+    tr = trace(kind="AT", n=sc["n"], bs=sc["bs"], max_iter=sc["max_iter"] + sc.get("max_iter2", 0), qthr=int(round(sc["qthr"] * 1e6)),
+               q0a=sc["q0"][0], q0A=sc["q0"][1], events=events)
+    cont = 0
     try:
         with time_limit(120):
             dre = RecDRE(n=sc["basis"], epsilon=0.001, max_iter=30, abs_tol=0.01, fold=5, optimize=False)
             smc = RecAT(m["d"], batch_size=sc["bs"], seed=sc["seed"], max_parallel_batches=sc["mp"], q_threshold=sc["qthr"],
                         initial_quantile=sc["q0"][0] / sc["q0"][1], densratio_estimation=dre)
             res = smc.sample(sc["n"], max_iter=sc["max_iter"], bar=False)
+            if sc.get("max_iter2"):        # continued sampling on the same sampler
+                cont = 1
+                res = smc.sample(sc["n"], max_iter=sc["max_iter2"], bar=False)
         qs = list(smc._quantiles)
         thrs = list(smc.objective["thresholds"])
         for i, pop in enumerate(res.populations):
@@ -353,9 +363,9 @@ def record_at(sc):
             events.append(e)
         events.append(end_event(nsim=int(res.n_sim), npops=len(res.populations)))
     except Hang:
-        events.append(end_event(raised="Hang", nsim=-1))
+        events.append(end_event(raised="Hang", nsim=-1, cont=cont))
     except Exception as ex:
-        events.append(end_event(raised="%s: %s" % (type(ex).__name__, str(ex)[:100]), nsim=-1))
+        events.append(end_event(raised="%s: %s" % (type(ex).__name__, str(ex)[:100]), nsim=-1, cont=cont))
     return tr
 
 
@@ -364,6 +374,16 @@ def record(sc):
 
 
 # ------------------------------------------------------------------------------ scenarios
+# FINDING (real behaviour of elfi, reproduced on every run): a second sample() call on an AdaptiveThresholdSMC sampler raises
+# TypeError.  set_objective prepares "continued estimation" (state['round'] = len(self._populations), rounds += round) but
+# re-creates self._quantiles as [initial_quantile, None, ...], so _init_new_round -> SMC._set_threshold reads
+# self._quantiles[round] = None and weighted_sample_quantile compares floats with None.  SMC and AdaptiveDistanceSMC continue
+# correctly.  Reported as drift E:continued-sampling-returns; set PIN_AT_CONTINUED = False to drop the pinned scenario.
+PIN_AT_CONTINUED = True
+PINNED_AT_CONTINUED = dict(kind="AT", prior="uniform", n=5, bs=2, max_iter=2, max_iter2=2, qthr=0.99, q0=[1, 2], basis=3, mp=1, seed=3,
+                           pinned="AT-continued-sampling")
+
+
 def scenarios(ctx):
     rnd = random.Random(ctx.seed * 7907 + 31)
     out = []
@@ -371,20 +391,27 @@ def scenarios(ctx):
     out.append(dict(kind="AD", prior="uniform", layout="2", n=3, q=[1, 2], rounds=4, bs=2, mp=1, seed=11))
     out.append(dict(kind="AD", prior="normal", layout="1", n=2, q=[1, 4], rounds=3, bs=3, mp=3, seed=12))
     out.append(dict(kind="AD", prior="hier", layout="v", n=4, q=[3, 4], rounds=3, bs=5, mp=1, seed=13))
+    # pinned: continued sampling (a second sample() call on the same sampler keeps thresholds and distance functions)
+    out.append(dict(kind="AD", prior="uniform", layout="2", n=3, q=[1, 2], rounds=2, rounds2=2, bs=2, mp=1, seed=14))
     n_ad = 11 if ctx.quick else 80
     for i in range(n_ad - len(out)):
-        out.append(dict(kind="AD", prior=["uniform", "normal", "hier"][i % 3], layout=rnd.choice(["1", "2", "2", "v", "1v"]),
-                        n=rnd.choice([2, 3, 4, 5]), q=rnd.choice([[1, 2], [1, 2], [1, 4], [3, 4], [5, 8], [1, 1]]),
-                        rounds=rnd.choice([1, 2, 3, 3, 4]), bs=rnd.choice([1, 2, 3, 5]), mp=rnd.choice([1, 1, 3]),
-                        seed=rnd.randint(0, 2 ** 31 - 1)))
+        sc = dict(kind="AD", prior=["uniform", "normal", "hier"][i % 3], layout=rnd.choice(["1", "2", "2", "v", "1v"]),
+                  n=rnd.choice([2, 3, 4, 5]), q=rnd.choice([[1, 2], [1, 2], [1, 4], [3, 4], [5, 8], [1, 1]]),
+                  rounds=rnd.choice([1, 2, 3, 3, 4]), bs=rnd.choice([1, 2, 3, 5]), mp=rnd.choice([1, 1, 3]),
+                  seed=rnd.randint(0, 2 ** 31 - 1))
+        if i % 5 == 4 and sc["rounds"] <= 2:
+            sc["rounds2"] = rnd.choice([1, 2])
+        out.append(sc)
     n_at = 11 if ctx.quick else 75
     # pinned: q_threshold so low that the run must stop after the first population; max_iter = 1
     out.append(dict(kind="AT", prior="uniform", n=5, bs=2, max_iter=4, qthr=0.05, q0=[1, 2], basis=3, mp=1, seed=21))
     out.append(dict(kind="AT", prior="normal", n=4, bs=3, max_iter=1, qthr=0.9, q0=[1, 4], basis=2, mp=1, seed=22))
+    if PIN_AT_CONTINUED:
+        out.append(dict(PINNED_AT_CONTINUED))
     for i in range(n_at - 2):
         n = rnd.choice([4, 5, 6, 8])
         out.append(dict(kind="AT", prior=["uniform", "normal", "hier"][i % 3], n=n, bs=rnd.choice([1, 2, 3, 4]),
-                        max_iter=rnd.choice([2, 3, 3, 4, 5]), qthr=rnd.choice([0.3, 0.5, 0.7, 0.9, 0.9, 0.99]),
+                        max_iter=rnd.choice([2, 3, 3, 4, 5]), qthr=rnd.choice([0.5, 0.7, 0.9, 0.9, 0.99, 0.99]),
                         q0=rnd.choice([[1, 2], [1, 4], [3, 4]]), basis=rnd.choice([2, 3, 4]), mp=rnd.choice([1, 1, 3]),
                         seed=rnd.randint(0, 2 ** 31 - 1)))
     return out
@@ -398,7 +425,7 @@ AT_INV = ["NSimAdds", "PopNSim", "UsesLatestPopulation", "NeverMoreThanRounds", 
           "ATQuantileOfPrevious", "ATDoneHasPopulation"]
 
 
-def mc_cfg(sampler, variant, n, N, bs, rounds, nvals, maxb, invs, qs=(1, 2, 3), qthr=3):
+def mc_cfg(sampler, variant, n, N, bs, rounds, nvals, maxb, invs, qs=(1, 2, 3), qthr=3, calls=1):
     return """SPECIFICATION Spec
 CONSTANTS
   Sampler = "%s"
@@ -407,37 +434,90 @@ CONSTANTS
   CandN = %d
   BS = %d
   Rounds = %d
+  MaxCalls = %d
   Vals = {%s}
   MaxBatches = %d
   Qs = {%s}
   QThr = %d
 %s
 CHECK_DEADLOCK FALSE
-""" % (sampler, variant, n, N, bs, rounds, ", ".join(str(v) for v in range(1, nvals + 1)), maxb, ", ".join(map(str, qs)), qthr,
+""" % (sampler, variant, n, N, bs, rounds, calls, ", ".join(str(v) for v in range(1, nvals + 1)), maxb, ", ".join(map(str, qs)), qthr,
        "\n".join("INVARIANT " + i for i in invs))
 
 
-def design(ctx):
-    """MC_AdaptiveSmc_*: the cfg texts are generated here (as c07.mc_cfg does)."""
-    ad = [(1, 2, 1, 3, 2, 3), (1, 2, 2, 3, 2, 2), (2, 3, 2, 2, 2, 3)]       # (n, N, bs, rounds, |Vals|, MaxBatches)
+class _Lane:
+    """The fields Ctx.tlc touches.  Each lane of design checks runs Ctx.tlc (the same code path) on its own lane object in its
+    own thread; the lanes are merged into ctx in the main thread afterwards, so ctx is never written concurrently."""
+    tlc = core.Ctx.tlc
+
+    def __init__(self, ctx):
+        self.outdir = ctx.outdir
+        self.states = self.transitions = 0
+        self.tlc_runs, self.negative_controls = [], []
+
+
+def design_jobs(ctx):
+    """MC_AdaptiveSmc_*: the cfg texts are generated here (as c07.mc_cfg does).  -> list of callables(lane)"""
+    jobs = []
+    # (n, N, bs, rounds per call, |Vals|, MaxBatches, sample() calls)
+    ad = [(1, 2, 1, 3, 2, 3, 1), (1, 2, 1, 1, 2, 3, 3), (1, 2, 2, 3, 2, 2, 1), (2, 3, 2, 1, 2, 3, 2)]
     if not ctx.quick:
-        ad += [(2, 3, 1, 2, 3, 4), (2, 3, 1, 3, 2, 4), (2, 3, 2, 3, 2, 3)]
-    for (n, N, bs, rounds, nv, mb) in ad:
-        ctx.tlc("AdaptiveSmc", "MC_AdaptiveSmc_AD_n%d_N%d_bs%d_r%d_v%d_b%d" % (n, N, bs, rounds, nv, mb),
-                cfg_text=mc_cfg("AD", "code", n, N, bs, rounds, nv, mb, AD_INV), expect_actions=["ADBatch", "ADEndRound"],
-                workers=WORKERS, timeout=1200, label="AdaptiveSmc AD (extension)")
+        ad += [(2, 3, 2, 3, 2, 3, 1), (2, 3, 1, 3, 2, 4, 1), (1, 2, 1, 2, 2, 3, 2), (2, 3, 1, 2, 3, 4, 1)]
+    for (n, N, bs, rounds, nv, mb, calls) in ad:
+        jobs.append(lambda lane, a=(n, N, bs, rounds, nv, mb), calls=calls: lane.tlc(
+            "AdaptiveSmc", "MC_AdaptiveSmc_AD_n%d_N%d_bs%d_r%d_v%d_b%d_c%d" % (a + (calls,)),
+            cfg_text=mc_cfg("AD", "code", *a, AD_INV, calls=calls),
+            expect_actions=["ADBatch", "ADEndRound"] + (["ADContinue"] if calls > 1 else []),
+            workers=WORKERS, timeout=1200, label="AdaptiveSmc AD (extension)"))
     for (rounds, qs, qthr) in [(4, (1, 2, 3), 3)] + ([] if ctx.quick else [(6, (1, 2, 3, 4), 3)]):
-        ctx.tlc("AdaptiveSmc", "MC_AdaptiveSmc_AT_r%d" % rounds, cfg_text=mc_cfg("AT", "code", 1, 1, 2, rounds, 1, 2, AT_INV, qs, qthr),
-                expect_actions=["ATEndRound"], workers=WORKERS, timeout=600, label="AdaptiveSmc AT (extension)")
+        jobs.append(lambda lane, rounds=rounds, qs=qs, qthr=qthr: lane.tlc(
+            "AdaptiveSmc", "MC_AdaptiveSmc_AT_r%d" % rounds, cfg_text=mc_cfg("AT", "code", 1, 1, 2, rounds, 1, 2, AT_INV, qs, qthr),
+            expect_actions=["ATEndRound"], workers=WORKERS, timeout=600, label="AdaptiveSmc AT (extension)"))
+
     # negative controls: each variant must be refuted by the invariant it breaks
-    for sampler, variant, args, inv in [("AD", "newest_only", (1, 2, 1, 3, 2, 3), "ADNestedAcceptance"),
-                                        ("AD", "accepted_only", (1, 2, 1, 3, 2, 3), "ADAdaptationData"),
-                                        ("AD", "no_rerank", (2, 3, 1, 2, 2, 4), "ADBestUnderNewDistance"),
-                                        ("AT", "stale_quantile", (1, 1, 2, 3, 1, 2), "ATStopRule")]:
-        r = ctx.tlc("AdaptiveSmc", "MC_AdaptiveSmc_neg_%s" % variant, cfg_text=mc_cfg(sampler, variant, *args, [inv]),
-                    expect_ok=False, workers=WORKERS, timeout=600, label="AdaptiveSmc negative control %s" % variant)
+    def neg(lane, sampler, variant, args, calls, inv):
+        r = lane.tlc("AdaptiveSmc", "MC_AdaptiveSmc_neg_%s" % variant, cfg_text=mc_cfg(sampler, variant, *args, [inv], calls=calls),
+                     expect_ok=False, workers=WORKERS, timeout=600, label="AdaptiveSmc negative control %s" % variant)
         if r.violated != inv:
             raise tlc.MachineryFailure("negative control %s refuted by %s, expected %s" % (variant, r.violated, inv))
+    for spec in [("AD", "newest_only", (1, 2, 1, 3, 2, 3), 1, "ADNestedAcceptance"),
+                 ("AD", "accepted_only", (1, 2, 1, 3, 2, 3), 1, "ADAdaptationData"),
+                 ("AD", "no_rerank", (2, 3, 1, 2, 2, 4), 1, "ADBestUnderNewDistance"),
+                 ("AD", "reset_functions", (1, 2, 1, 1, 2, 3), 2, "ADOneFunctionPerRound"),
+                 ("AT", "stale_quantile", (1, 1, 2, 3, 1, 2), 1, "ATStopRule")]:
+        jobs.append(lambda lane, spec=spec: neg(lane, *spec))
+    return jobs
+
+
+class Design:
+    """runs the design jobs on LANES threads (TLC is a subprocess; <= LANES * WORKERS = 8 TLC workers)"""
+
+    def __init__(self, ctx):
+        self.ctx = ctx
+        jobs = design_jobs(ctx)
+        self.lanes = [_Lane(ctx) for _ in range(LANES)]
+        self.errors = []
+        self.threads = [threading.Thread(target=self._run, args=(self.lanes[k], jobs[k::LANES]), daemon=True) for k in range(LANES)]
+        for th in self.threads:
+            th.start()
+
+    def _run(self, lane, jobs):
+        try:
+            for job in jobs:
+                job(lane)
+        except BaseException as ex:      # re-raised in the main thread by join()
+            self.errors.append(ex)
+
+    def join(self):
+        for th in self.threads:
+            th.join()
+        for lane in self.lanes:
+            self.ctx.states += lane.states
+            self.ctx.transitions += lane.transitions
+            self.ctx.tlc_runs += lane.tlc_runs
+            self.ctx.negative_controls += lane.negative_controls
+        if self.errors:
+            raise self.errors[0]
 
 
 # ------------------------------------------------------------------------------ check
@@ -461,24 +541,105 @@ CLAUSES_TRACE = [
     "only at q_threshold; at most max_iter populations; weights / covariance relations as C07"]
 
 
+def corruptions(kept):
+    """Negative controls of the trace spec (binding demonstration, T5 i): (what, expected clause, trace) where one recorded
+    field of a trace taken from a real run is changed.  Python only picks WHERE to corrupt; TLC must reject with the clause."""
+    import copy
+    out = []
+    src = {id(tr): k for k, (_sc, tr) in enumerate(kept)}
+    ad = [tr for sc, tr in kept if sc["kind"] == "AD" and tr["events"][-1]["raised"] == ""]
+    at = [tr for sc, tr in kept if sc["kind"] == "AT" and tr["events"][-1]["raised"] == ""]
+
+    def nested_reject(tr):
+        # a simulated row that passes the NEWEST threshold in force but fails an earlier one (else: any rejected row)
+        best = None
+        for k, e in enumerate(tr["events"]):
+            if e["ev"] != "pop" or len(e["nest"]) < 2:
+                continue
+            for x, row in enumerate(e["rows"]):
+                if (x + 1) in e["cand"]:
+                    continue
+                bad = [c for c in range(1, len(row)) if row[c] > e["nest"][c] + 1000]
+                if bad and row[-1] <= e["nest"][-1] - 1000 and len(row) >= 3:
+                    return k, x + 1
+                if bad and best is None:
+                    best = (k, x + 1)
+        return best
+    for tr in ad:
+        hit = nested_reject(tr)
+        if hit:
+            t = copy.deepcopy(tr)
+            e = t["events"][hit[0]]
+            e["cand"][e["pop"][0] - 1] = hit[1]
+            out.append(("AD: a particle re-pointed to a simulated row that fails an earlier nested threshold",
+                        "P:particle-passed-every-earlier-nested-threshold", t, src[id(tr)]))
+            break
+    if ad:
+        t = copy.deepcopy(ad[0])
+        k = max(i for i, e in enumerate(t["events"]) if e["ev"] == "pop")
+        t["events"][k]["thr_rep"] += 7
+        out.append(("AD: reported threshold of the last population off by 7e-6", "P:threshold-is-largest-new-distance-of-population", t, src[id(ad[0])]))
+        t = copy.deepcopy(ad[0])
+        t["events"][0]["w_elfi"][0] += t["events"][0]["w_elfi"][0] // 100 + 5
+        out.append(("AD: reported distance weight off by 1 per cent", "P:new-distance-scale-is-std-of-all-rows-of-the-round", t, src[id(ad[0])]))
+        t = copy.deepcopy(ad[0])
+        t["events"][-1]["ndf"] += 1
+        out.append(("AD: one distance function too many at the end", "P:one-distance-function-per-finished-round", t, src[id(ad[0])]))
+    for tr in at:
+        pops = [e for e in tr["events"] if e["ev"] == "pop"]
+        if 0 < len(pops) < tr["max_iter"] and pops[-1]["qest"] >= 0:
+            t = copy.deepcopy(tr)
+            t["qthr"] = pops[-1]["qest"] + 1000
+            out.append(("AT: q_threshold raised above the last estimate of a run that stopped early",
+                        "P:early-stop-only-when-estimated-quantile-reaches-q_threshold", t, src[id(tr)]))
+            break
+    for tr in at:
+        pops = [e for e in tr["events"] if e["ev"] == "pop"]
+        if len(pops) >= 2 and pops[0]["qest"] > 2000:
+            t = copy.deepcopy(tr)
+            t["qthr"] = pops[0]["qest"] - 1000
+            out.append(("AT: q_threshold lowered below the estimate after which a round was started",
+                        "P:round-started-only-while-estimated-quantile-below-q_threshold", t, src[id(tr)]))
+            break
+    for tr in at:
+        pops = [(i, e) for i, e in enumerate(tr["events"]) if e["ev"] == "pop"]
+        done = False
+        for (i0, e0), (i1, e1) in zip(pops, pops[1:]):
+            for v in sorted(set(e0["ds"])):
+                le = sum(w for d, w in zip(e0["ds"], e0["wn"]) if d <= v)
+                lt = sum(w for d, w in zip(e0["ds"], e0["wn"]) if d < v)
+                if v != e1["thr_force"] and (le < e1["a"] - 800 or lt > e1["a"] + 800):
+                    t = copy.deepcopy(tr)
+                    t["events"][i1]["thr_force"] = v
+                    out.append(("AT: threshold in force replaced by another discrepancy of the previous population",
+                                "P:threshold-is-weighted-quantile-of-previous-population", t, src[id(tr)]))
+                    done = True
+                    break
+            if done:
+                break
+        if done:
+            break
+    return out
+
+
 def check_adaptive(ctx):
     """design check in a background thread (TLC is a subprocess) while the main thread records the real runs."""
-    box = {}
-
-    def bg():
-        try:
-            design(ctx)
-        except BaseException as ex:      # re-raised in the main thread
-            box["ex"] = ex
-    th = threading.Thread(target=bg, daemon=True)
-    th.start()
+    bg = Design(ctx)
     scs = scenarios(ctx)
     traces = [record(sc) for sc in scs]
-    th.join()
-    if "ex" in box:
-        raise box["ex"]
+    bg.join()
     kept = [(sc, tr) for sc, tr in zip(scs, traces) if tr is not None]
-    verdicts = ctx.validate("AdaptiveSmc_Trace", [tr for _sc, tr in kept], chunk=max(10, -(-len(kept) // 6)), name="adaptive")
+    corr = corruptions(kept)
+    allv = ctx.validate("AdaptiveSmc_Trace", [tr for _sc, tr in kept] + [c[2] for c in corr], chunk=max(10, -(-(len(kept) + len(corr)) // 6)),
+                        name="adaptive")
+    verdicts = allv[:len(kept)]
+    ctx.traces_validated -= len(corr)            # corrupted copies are not executions of the real code
+    for (what, want, _t, k), v in zip(corr, allv[len(kept):]):
+        if verdicts[k]["verdict"] != "ok":
+            continue          # the real trace it was derived from already fails (changed tree): the copy may fail earlier for that reason
+        if v["verdict"] != want:
+            raise tlc.MachineryFailure("AdaptiveSmc_Trace did not reject a corrupted trace (%s): expected %s, got %r" % (what, want, v))
+        ctx.negative_controls.append(dict(run="corrupted trace / AdaptiveSmc_Trace: " + what, refuted=want))
     npops = {"AD": 0, "AT": 0}
     early = 0
     for (sc, tr), v in zip(kept, verdicts):
@@ -494,6 +655,8 @@ def check_adaptive(ctx):
                                                                  n_rows=len(e["rows"]) or len(e["rowd"])))
         elif v["drift"]:
             ctx.drifted("E:" + v["drift"][2:], sc)
+    ctx.trusted_base += ["numpy std / sqrt and scipy densities as oracle fields of the adaptive-SMC traces (T4)",
+                         "harness hooks: subclass overrides of update / _extract_population / DensityRatioEstimation.max_ratio that only record"]
     ctx.notes.append("adaptive SMC extension: %d AD runs (%d populations), %d AT runs (%d populations, %d stopped before max_iter), %d excluded "
                      "(oracle outside the fixed-point domain)" % (sum(1 for sc, _t in kept if sc["kind"] == "AD"), npops["AD"],
                                                                   sum(1 for sc, _t in kept if sc["kind"] == "AT"), npops["AT"], early,
